@@ -5,3 +5,7 @@ tick = 7
 
 def who():
     return "s"
+
+
+for _i in range(16):        # per-case names, see vmod.py
+    globals()["who%02d" % _i] = who
